@@ -115,12 +115,49 @@ def _ordered(body, fields, what):
     return out
 
 
+def _canon_loops(src):
+    """harmless-rewrite tolerance: the control variable of a `for (int32_t X = 0; …)` loop that contains no other loop (and no
+    other use of `i`) is renamed to `i`, the name the patterns below were written against.  (Braces around the single-statement
+    value loops of marshal_one_env / unmarshal_one_env are optional in their patterns.)"""
+    out, pos = [], 0
+    for m in re.finditer(r"\bfor\s*\(\s*int32_t\s+(\w+)\s*=", src):
+        if m.start() < pos:
+            continue
+        name = m.group(1)
+        # extent of the loop statement
+        k = src.index("(", m.start())
+        depth, j = 0, k
+        while True:
+            if src[j] == "(":
+                depth += 1
+            elif src[j] == ")":
+                depth -= 1
+                if depth == 0:
+                    break
+            j += 1
+        e = j + 1
+        while src[e].isspace():
+            e += 1
+        if src[e] == "{":
+            end = csrc.match_brace(src, e)
+        else:
+            end = src.index(";", e) + 1
+        stmt = src[m.start():end]
+        if name != "i" and len(re.findall(r"\bfor\s*\(", stmt)) == 1 and not re.search(r"\bi\b", stmt):
+            stmt = re.sub(r"\b%s\b" % re.escape(name), "i", stmt)
+        out.append(src[pos:m.start()])
+        out.append(stmt)
+        pos = end
+    out.append(src[pos:])
+    return "".join(out)
+
+
 def _inc(m, group=1):
     return 1 if m.group(group) else 0
 
 
 def extract(tree):
-    src = csrc.strip_comments(csrc.read(tree, "src/core/marsh.c"))
+    src = _canon_loops(csrc.strip_comments(csrc.read(tree, "src/core/marsh.c")))
     hdr = csrc.strip_comments(csrc.read(tree, "src/include/janet.h"))
     flags = {}
     for f in FLAGS:
@@ -174,7 +211,7 @@ def extract(tree):
         raise ExtractError("marshal_one_env: seen_envs lookup / push not recognised")
     m = re.search(r"else\s*\{\s*janet_env_maybe_detach\s*\(\s*env\s*\)\s*;\s*pushint\s*\(\s*st\s*,\s*env->offset\s*\)\s*;\s*pushint\s*\(\s*st\s*,\s*env->length\s*\)\s*;\s*"
                   r"if\s*\(\s*env->offset\s*>\s*0\s*\)\s*\{\s*marshal_one\s*\(\s*st\s*,\s*janet_wrap_fiber\s*\(\s*env->as\.fiber\s*\)\s*,\s*flags(\s*\+\s*1)?\s*\)\s*;\s*\}\s*else\s*\{\s*"
-                  r"for\s*\(\s*int32_t\s+i\s*=\s*0\s*;\s*i\s*<\s*env->length\s*;\s*i\+\+\s*\)\s*marshal_one\s*\(\s*st\s*,\s*env->as\.values\[i\]\s*,\s*flags(\s*\+\s*1)?\s*\)\s*;", me)
+                  r"for\s*\(\s*int32_t\s+i\s*=\s*0\s*;\s*i\s*<\s*env->length\s*;\s*i\+\+\s*\)\s*\{?\s*marshal_one\s*\(\s*st\s*,\s*env->as\.values\[i\]\s*,\s*flags(\s*\+\s*1)?\s*\)\s*;", me)
     if not m:
         raise ExtractError("marshal_one_env: offset / length / fiber / values not recognised")
     a, b = _inc(m, 1), _inc(m, 2)
@@ -190,7 +227,7 @@ def extract(tree):
     m = re.search(r"if\s*\(\s*\*data\s*==\s*LB_FUNCENV_REF\s*\)\s*\{\s*data\+\+\s*;\s*int32_t\s+index\s*=\s*readint\s*\(\s*st\s*,\s*&data\s*\)\s*;\s*if\s*\(\s*index\s*<\s*0\s*\|\|\s*index\s*>=\s*janet_v_count\s*\(\s*st->lookup_envs\s*\)\s*\).*?"
                   r"janet_v_push\s*\(\s*st->lookup_envs\s*,\s*env\s*\)\s*;\s*int32_t\s+offset\s*=\s*readnat\s*\(\s*st\s*,\s*&data\s*\)\s*;\s*int32_t\s+length\s*=\s*readnat\s*\(\s*st\s*,\s*&data\s*\)\s*;\s*"
                   r"if\s*\(\s*offset\s*>\s*0\s*\)\s*\{\s*Janet\s+fiberv\s*;\s*data\s*=\s*unmarshal_one\s*\(\s*st\s*,\s*data\s*,\s*&fiberv\s*,\s*flags(\s*\+\s*1)?\s*\)\s*;.*?"
-                  r"\}\s*else\s*\{\s*if\s*\(\s*length\s*==\s*0\s*\)\s*\{.*?for\s*\(\s*int32_t\s+i\s*=\s*0\s*;\s*i\s*<\s*length\s*;\s*i\+\+\s*\)\s*data\s*=\s*unmarshal_one\s*\(\s*st\s*,\s*data\s*,\s*env->as\.values\s*\+\s*i\s*,\s*flags(\s*\+\s*1)?\s*\)\s*;", ue, flags=re.S)
+                  r"\}\s*else\s*\{\s*if\s*\(\s*length\s*==\s*0\s*\)\s*\{.*?for\s*\(\s*int32_t\s+i\s*=\s*0\s*;\s*i\s*<\s*length\s*;\s*i\+\+\s*\)\s*\{?\s*data\s*=\s*unmarshal_one\s*\(\s*st\s*,\s*data\s*,\s*env->as\.values\s*\+\s*i\s*,\s*flags(\s*\+\s*1)?\s*\)\s*;", ue, flags=re.S)
     if not m:
         raise ExtractError("unmarshal_one_env: reference / push / offset / length / fiber / values not recognised")
     if _inc(m, 1) != _inc(m, 2):
